@@ -30,3 +30,8 @@ package status
 //@ func (Status).ServeHTTP
 //@   requires w != nil && r != nil && status.Next != nil
 //@   requires forallT(k, *Rule, k != nil ==> (100 <= k.StatusCode && k.StatusCode <= 999))
+
+//@ unit rule_constructor frames=on props=C19,C11 nilchecks=on filter=`status\.NewRule$`
+//@ // what status_handler assumes of NewRule, proved: the rule carries the status and base path it was given
+//@ func NewRule
+//@   ensures result != nil && result.StatusCode == status && result.Base == basePath
